@@ -97,7 +97,7 @@ def run(R):
             for bb, i, ops in errs:
                 R.check(is_call(strip_refs(b.origin(ops[0])), pat='Status::' + ctor), 'C06.R2', '%s:%s' % (nm, ctor), site(b, bb, i), 'status = %s' % show(b.origin(ops[0]))[:100])
             for pb, pt in puts:
-                R.check(any(s == tb and vals == [0] for s, vals, tm in b.edge_guards(pb)), 'C06.R2', '%s:before-%s' % (nm, pt['name']), site(b, pb), 'prefix write %s guarded by the false edge of the %s test' % (pt['name'], nm))
+                R.check(any(s == tb and vals == [0] for s, vals, tm in b.edge_guards(pb)), 'C06.R2', '%s:before-prefix-write-%d' % (nm, puts.index((pb, pt))), site(b, pb), 'prefix write %s guarded by the false edge of the %s test' % (pt['name'], nm))
         # payload length = slice length - HEADER_SIZE
         sub = [x for x in find_terms(lim_t[0][1][2] if lim_t else ('x',), lambda x: x and x[0] == 'bin' and x[1] == 'SubWithOverflow')]
         R.check(bool(sub) and const_val(sub[0][3]) == W['header_size'], 'C06.R2', 'len=slice-minus-header', site(b), 'payload length = %s' % (show(sub[0]) if sub else None))
